@@ -7,6 +7,7 @@ import (
 	"runtime"
 	"strings"
 	"sync"
+	"sync/atomic"
 	"time"
 
 	kv "github.com/XiXi-2024/xixi-kv"
@@ -45,7 +46,21 @@ func guardName(fn func() error) (name string) {
 	return h.ErrName(fn())
 }
 
+// The engine reads kv.VerifPoint from its own goroutines (the background merge among them) without any
+// synchronisation with the driver, so the variable is written exactly once per process; what the hook does is
+// changed through an atomic.
+var raceHook atomic.Value // of func(string, uint32)
+
+func setRaceHook(f func(string, uint32)) {
+	if f == nil {
+		f = func(string, uint32) {}
+	}
+	raceHook.Store(f)
+}
+
 func profRace(en *Env) {
+	setRaceHook(nil)
+	kv.VerifPoint = func(name string, arg uint32) { raceHook.Load().(func(string, uint32))(name, arg) }
 	runs := 6 * en.Scale
 	if en.Thorough() {
 		runs = 60 * en.Scale
@@ -117,11 +132,11 @@ func raceRun(en *Env, i int, stats map[string]int) {
 			return
 		}
 	}
-	kv.VerifPoint = func(name string, arg uint32) {
+	setRaceHook(func(name string, arg uint32) {
 		if arg%3 == 0 {
 			runtime.Gosched()
 		}
-	}
+	})
 	lg := &copLog{}
 	nworkers := []int{4, 8, 16}[i%3]
 	ops := 40
@@ -269,7 +284,7 @@ func raceRun(en *Env, i int, stats map[string]int) {
 		n := runtime.Stack(buf, true)
 		os.Stderr.Write(buf[:n])
 	}
-	kv.VerifPoint = nil
+	setRaceHook(nil)
 	en.T.Emit(h.Ev{"ev": "reset", "key": 0, "label": "race:" + cfg.String()})
 	lg.mu.Lock()
 	for _, ev := range lg.evs {
@@ -281,11 +296,44 @@ func raceRun(en *Env, i int, stats map[string]int) {
 	if stuck {
 		h.ExitIfStuck("stuck", en.T)
 	}
+	if bg {
+		// the engine's own background Merge is parked right after it has let go of the database lock; Close, called
+		// then, must return (the merge ends with an error once its files are closed - that is not judged)
+		parked, rel := make(chan struct{}), make(chan struct{})
+		var once sync.Once
+		setRaceHook(func(name string, arg uint32) {
+			if name == "merge.started" {
+				once.Do(func() { close(parked); <-rel })
+			}
+		})
+		for k := 1; k <= nkeys; k++ {
+			db.Put(u.Key(k), []byte("bgclose"))
+		}
+		isParked := false
+		select {
+		case <-parked:
+			isParked = true
+		case <-h.After(2500 * time.Millisecond):
+		}
+		done := make(chan string, 1)
+		go func() { done <- guardName(func() error { return db.Close() }) }()
+		select {
+		case cl := <-done:
+			en.T.Emit(h.Ev{"ev": "cop", "op": "Close", "err": cl})
+			en.T.Emit(h.Ev{"ev": "note", "check": "bgclose", "ok": true, "parked": isParked})
+		case <-h.After(20 * time.Second):
+			en.T.Emit(h.Ev{"ev": "note", "check": "bgclose", "ok": false, "parked": isParked})
+			close(rel)
+			h.ExitIfStuck("stuck", en.T)
+		}
+		close(rel)
+		time.Sleep(50 * time.Millisecond)
+		setRaceHook(nil)
+		stats["bgclose_parked"] += map[bool]int{true: 1, false: 0}[isParked]
+		return
+	}
 	cl := guardName(func() error { return db.Close() })
 	en.T.Emit(h.Ev{"ev": "cop", "op": "Close", "err": cl})
-	if bg {
-		return // (the engine's background goroutine may still be inside a Merge when Close runs: not one of the listed calls)
-	}
 	// the restart adopts whatever merge was completed: Open and every read must succeed
 	var db2 *kv.DB
 	on := guardName(func() error {
